@@ -40,6 +40,11 @@ type c16Ref struct {
 	UID   int    `json:"uid"`
 	Ctrl  string `json:"ctrl"`  // "nil" | "false" | "true"
 	Block string `json:"block"` // "nil" | "false" | "true"
+	// Name overrides the name c16OwnerIdent gives the uid: an owner entry that carries the
+	// SAME kind and name as somebody else (an earlier incarnation of the revision, deleted and
+	// re-created under its name) but another UID. Owner references are told apart by UID only;
+	// the model never sees the name.
+	Name string `json:"name,omitempty"`
 }
 
 type c16PRef struct {
@@ -75,6 +80,31 @@ type c16Fault struct {
 	I     int    `json:"i"`     // object index (establish) / ref index (release)
 	Phase string `json:"phase"` // get | dry | real
 	Out   string `json:"out"`   // fail | conflict | crashBefore | crashAfter
+	// Class is the API error class an Out=="fail" is answered with ("" = InternalError):
+	// notFound | alreadyExists | invalid | forbidden | timeout | tooMany | unavailable | deadline.
+	// The code must treat every one of them as a plain failure of that call (the model does: `.fail`).
+	Class string `json:"class,omitempty"`
+}
+
+// c16Stale: the informer cache behind the validate-phase Get of object I is not up to date: it
+// misses the object (NotFound although it may exist) or serves an OLDER VERSION (Owners/Body,
+// with a resourceVersion older than the stored one). Back > 0 asks the harness to take the
+// version that many writes back out of simstore's history of the object (it then fills in
+// Owners/Body - what the model is told - or drops the entry when there is no older version).
+type c16Stale struct {
+	I      int      `json:"i"`
+	Miss   bool     `json:"miss"`
+	Body   int      `json:"body"`
+	Owners []c16Ref `json:"owners"`
+	Back   int      `json:"back,omitempty"`
+}
+
+// c16StaleRefs: the reconciler's (cached) Get of the revision itself serves an older version:
+// status.objectRefs = Refs and an old resourceVersion. Back > 0: take the list the revision had
+// that many status writes ago (the harness fills in Refs, or drops the staleness).
+type c16StaleRefs struct {
+	Refs []c16XRef `json:"refs"`
+	Back int       `json:"back,omitempty"`
 }
 
 // c16XRef is a status.objectRefs entry. Kinded=false: apiVersion/kind are empty
@@ -98,7 +128,12 @@ type c16RevState struct {
 // this key, "put" creates it or replaces it (fresh resourceVersion) with the given
 // body and owner references.
 type c16Act struct {
-	I      int      `json:"i"`
+	I int `json:"i"`
+	// At places the write: "" = right before the REAL write of object I (I = -1: between the
+	// phases); "vget" / "vdry" = validate phase: right before the Get / between the Get and the
+	// dry-run write of object I; "rget" / "rupd" = ReleaseObjects: right before the Get / between
+	// the Get and the Update of reference I.
+	At     string   `json:"at,omitempty"`
 	Act    string   `json:"act"` // del | put
 	Key    string   `json:"key"`
 	Body   int      `json:"body"`
@@ -106,16 +141,18 @@ type c16Act struct {
 }
 
 type c16Step struct {
-	Op        string     `json:"op"` // establish | release | reconcile
-	Parent    c16Parent  `json:"parent"`
-	Control   bool       `json:"control"` // establish: control; reconcile: desiredState == Active
-	Objs      []c16Des   `json:"objs"`
-	Refs      []c16XRef  `json:"refs"` // release: status.objectRefs
-	Faults    []c16Fault `json:"faults"`
-	RejBodies []int      `json:"rejBodies"`
-	RejKeys   []string   `json:"rejKeys"`
-	Conc      int        `json:"conc"`
-	TP        []c16Act   `json:"tp"` // third-party interference with the establish phase
+	Op        string        `json:"op"` // establish | release | reconcile
+	Parent    c16Parent     `json:"parent"`
+	Control   bool          `json:"control"` // establish: control; reconcile: desiredState == Active
+	Objs      []c16Des      `json:"objs"`
+	Refs      []c16XRef     `json:"refs"` // release: status.objectRefs
+	Faults    []c16Fault    `json:"faults"`
+	RejBodies []int         `json:"rejBodies"`
+	RejKeys   []string      `json:"rejKeys"`
+	Conc      int           `json:"conc"`
+	TP        []c16Act      `json:"tp"` // third-party interference (see c16Act.At)
+	Stale     []c16Stale    `json:"stale,omitempty"`
+	StaleRefs *c16StaleRefs `json:"staleRefs,omitempty"`
 	// told to the model (filled in after the real run)
 	VOrder []int  `json:"vorder"`
 	EOrder []int  `json:"eorder"`
@@ -145,8 +182,8 @@ type c16RefObs struct {
 type c16StepObs struct {
 	Result string      `json:"result"` // ok | err | crash
 	Refs   []c16RefObs `json:"refs"`   // establish: returned refs; reconcile: status.objectRefs afterwards (sorted)
-	Store  []c16Obj `json:"store"`
-	Log    []c16Log `json:"log"` // non-dry-run writes of this step
+	Store  []c16Obj    `json:"store"`
+	Log    []c16Log    `json:"log"` // non-dry-run writes of this step
 }
 
 type c16Obs struct {
@@ -211,6 +248,9 @@ func c16MkRefs(rs []c16Ref) []metav1.OwnerReference {
 	var out []metav1.OwnerReference
 	for _, r := range rs {
 		av, k, n := c16OwnerIdent(r.UID)
+		if r.Name != "" {
+			n = r.Name
+		}
 		out = append(out, metav1.OwnerReference{APIVersion: av, Kind: k, Name: n, UID: c16UID(r.UID), Controller: c16Tri(r.Ctrl), BlockOwnerDeletion: c16Tri(r.Block)})
 	}
 	return out
@@ -353,7 +393,6 @@ func c16Snapshot(st *Store) []c16Obj {
 	return out
 }
 
-
 // ---------------------------------------------------------------- regenerated facts (lean/Xp/Gen/C16.lean)
 
 func c16LeanTri(b *bool) string {
@@ -442,7 +481,7 @@ func init() {
 		// GetPackageOwnerReference: which owner reference of a revision is its package
 		sb.WriteString("/-- (label, owner names, index GetPackageOwnerReference picks; none = not found) -/\ndef c16PkgRefTable : List (String × List String × Option Nat) := [\n")
 		first = true
-		names := []string{"", "p", "q"}
+		names := []string{"", "p", "q", "pq"} // "p" is a prefix of "pq"
 		var nameLists [][]string
 		nameLists = append(nameLists, []string{})
 		for _, a := range names {
